@@ -32,6 +32,8 @@ import CookModel.Lemmas.DiagPlaceDocInst
 import CookModel.Lemmas.DiagEventKinds
 import CookModel.Lemmas.DiagPlaceDocQty
 import CookModel.Lemmas.DiagPlaceName
+import CookModel.Lemmas.DiagPlaceDocMore
+import CookModel.Lemmas.DiagPlaceInter
 /-
   C07  Diagnostics are sound, complete and placed on the offending construct.
 
@@ -3952,5 +3954,186 @@ example := (C07_planted_empty_name_alias (α := Rat) C07_yToks2 [⟨.word, "Use"
 example : (parseRecipe (α := Rat) { C07_coreEnv with ext := ⟨Gen.EXT_COMPONENT_ALIAS⟩ }
       "Use @|x{} now\n".toList).diags.toList =
     [⟨.error, .parse, "empty-name:ingredient", [⟨5, 5⟩]⟩] := by decide +kernel
+
+-- ===== w9c07inter =====
+/-! ## More document-level instances of the quantity family (wave 9): empty value, empty unit
+
+  The readings (`Lemmas/DiagPlaceDocMore.lean`) hold on every token list spelling the specified quantity tokens;
+  the expected events take the `%`, the unit tokens and the `=` from the ACTUAL tokens by position, so the labels
+  are byte offsets of the document. -/
+
+/-- **Instance: an empty value `@name{ (=)? %unit }` planted in a document** (quantity tokens: blanks, an optional
+    `=`, the `%`, then any unit tokens; no value token at all — `@x{%g}`, `@x{ %g}`, `@x{=%}`; no modifiers, no alias
+    separator, a name showing a non-blank character, not followed by `(`).  On every actual block the construct's
+    events are EXACTLY `empty-value` (error, parse; labelled with the empty text at the byte offset of the actual `%`),
+    then the warning `empty-unit` on the actual `%` iff the unit text is blank, then the ingredient (unit: the unit text
+    unless blank; lock: the span of the actual `=`) on the byte range of the construct.  Every extension set.  With
+    `C07_planted_document`: the report of `parse` has exactly these parse-stage diagnostics, no output, invalid. -/
+theorem C07_planted_document_empty_value (env : Env) (pre post : List SegX) (tmS : Tok) (nameS : List Tok)
+    (tobS tcbS : Tok) (preS lkS : List Tok) (pctS : Tok) (utS : List Tok)
+    (sh : PlShape env.ext .at tmS [] nameS tobS (preS ++ (lkS ++ pctS :: utS)) tcbS (post.flatMap SegX.spell))
+    (halias : env.ext.has Gen.EXT_COMPONENT_ALIAS = false ∨ ∀ t ∈ nameS, t.kind ≠ .or)
+    (hname : ∃ t ∈ nameS, plainKind t.kind = true ∧ NBs env.cs t.text)
+    (hpre : ∀ t ∈ preS, isWsComment t.kind = true)
+    (hlk : lkS = [] ∨ ∃ u, lkS = [u] ∧ u.kind = .eq) (hpct : pctS.kind = .percent) :
+    ∀ (T tpre tB tpost : List Tok), T = tpre ++ (tB ++ tpost) → Spells tpre (pre.flatMap SegX.spell) →
+      Spells tB (c07p_comp tmS [] nameS tobS (preS ++ (lkS ++ pctS :: utS)) tcbS) →
+      Spells tpost (post.flatMap SegX.spell) → RunAt (baseOff T) T →
+      PlPieceAt (α := α) T env.cs env.ext tpre ⟨tB, c07x_ingrQtySpec nameS (preS ++ (lkS ++ pctS :: utS))
+        (c07z_emptyValueEvs env.cs (preS.length + lkS.length))
+        (c07z_emptyValueRead env.cs preS.length lkS.length) T tpre tB⟩ :=
+  (C07_planted_document_quantity_family (α := α) env pre post tmS nameS tobS _ tcbS
+    ⟨pctS, by simp, by simp [isPadK, hpct]⟩ _ _
+    (c07z_empty_value_reading env.cs env.ext preS lkS pctS utS hpre hlk hpct)).1 sh halias hname
+
+/-- **Instance: an empty unit `@name{number% blanks}` planted in a document** (the value a well-formed number, or a
+    range under RANGE_VALUES; the unit tokens are padding only — none, spaces, block comments; no modifiers, no alias
+    separator, a name showing a non-blank character, not followed by `(`).  On every actual block the construct's
+    events are EXACTLY the warning `empty-unit` (warning, parse) labelled with the bytes of the actual `%`
+    (`n` = number of value tokens), then the ingredient, its quantity without unit, on the byte range of the
+    construct.  No error event: by `C07_planted_document` the document HAS output. -/
+theorem C07_planted_document_empty_unit (env : Env) (pre post : List SegX) (tmS : Tok) (nameS : List Tok)
+    (tobS tcbS : Tok) (v : AVal) (p : VPad) (pctS t0S : Tok) (utS : List Tok)
+    (sh : PlShape env.ext .at tmS [] nameS tobS (spellVal v p ++ pctS :: utS) tcbS (post.flatMap SegX.spell))
+    (halias : env.ext.has Gen.EXT_COMPONENT_ALIAS = false ∨ ∀ t ∈ nameS, t.kind ≠ .or)
+    (hname : ∃ t ∈ nameS, plainKind t.kind = true ∧ NBs env.cs t.text)
+    (hv : v.ok env.cs = true) (hp : p.ok env.cs = true) (hnt : v.isText = false)
+    (hext : v.isRange = true → env.ext.has Gen.EXT_RANGE_VALUES = true)
+    (h0 : (spellVal v p).head? = some t0S) (hws : isWsComment t0S.kind = false) (heq : t0S.kind ≠ .eq)
+    (hvp : ∀ t ∈ spellVal v p, t.kind ≠ .percent) (hpct : pctS.kind = .percent)
+    (hunit : padOK env.cs utS = true) :
+    ∀ (T tpre tB tpost : List Tok), T = tpre ++ (tB ++ tpost) → Spells tpre (pre.flatMap SegX.spell) →
+      Spells tB (c07p_comp tmS [] nameS tobS (spellVal v p ++ pctS :: utS) tcbS) →
+      Spells tpost (post.flatMap SegX.spell) → RunAt (baseOff T) T →
+      PlPieceAt (α := α) T env.cs env.ext tpre ⟨tB, c07x_ingrQtySpec nameS (spellVal v p ++ pctS :: utS)
+        (c07z_emptyUnitEvs (spellVal v p).length) (fun _ q => q.quantity.val.unit = none) T tpre tB⟩ :=
+  (C07_planted_document_quantity_family (α := α) env pre post tmS nameS tobS _ tcbS
+    ⟨pctS, by simp, by simp [isPadK, hpct]⟩ _ _
+    (c07z_empty_unit_reading env.cs env.ext v p pctS t0S utS hv hp hnt hext h0 hws heq hvp hpct hunit)).1
+      sh halias hname
+
+/-! non-vacuity: the documents `>> source: grandma` / blank / `Use @x{%g} now` and `… Use @x{5%} now`. -/
+def C07_zQ1 : List Tok := [] ++ ([] ++ tk .percent ['%'] :: [tk .word ['g']])
+def C07_zQ2 : List Tok := spellVal C07_xV5 {} ++ tk .percent ['%'] :: []
+def C07_zB1 : List Tok := c07p_comp (tk .at ['@']) [] C07_xName (tk .openBrace ['{']) C07_zQ1 (tk .closeBrace ['}'])
+def C07_zB2 : List Tok := c07p_comp (tk .at ['@']) [] C07_xName (tk .openBrace ['{']) C07_zQ2 (tk .closeBrace ['}'])
+example : plantedOK C07_coreEnv.cs C07_coreEnv.ext C07_plPre' C07_plPost C07_zB1 = true ∧
+    plantedOK C07_coreEnv.cs C07_coreEnv.ext C07_plPre' C07_plPost C07_zB2 = true := by decide
+theorem C07_zShape1 : PlShape C07_coreEnv.ext .at (tk .at ['@']) [] C07_xName (tk .openBrace ['{']) C07_zQ1
+    (tk .closeBrace ['}']) (C07_plPost.flatMap SegX.spell) :=
+  ⟨rfl, Or.inl ⟨rfl, rfl⟩, by decide, rfl, by decide, rfl,
+   by intro t h; simp [C07_plPost, SegX.spell] at h; subst h; decide⟩
+theorem C07_zShape2 : PlShape C07_coreEnv.ext .at (tk .at ['@']) [] C07_xName (tk .openBrace ['{']) C07_zQ2
+    (tk .closeBrace ['}']) (C07_plPost.flatMap SegX.spell) :=
+  ⟨rfl, Or.inl ⟨rfl, rfl⟩, by decide, rfl, by decide, rfl,
+   by intro t h; simp [C07_plPost, SegX.spell] at h; subst h; decide⟩
+example := C07_planted_document_empty_value (α := Rat) C07_coreEnv C07_plPre' C07_plPost _ C07_xName _ _ [] []
+  (tk .percent ['%']) [tk .word ['g']] C07_zShape1 (Or.inl rfl) C07_xNameNB (by intro t h; cases h) (Or.inl rfl) rfl
+example := C07_planted_document_empty_unit (α := Rat) C07_coreEnv C07_plPre' C07_plPost _ C07_xName _ _ C07_xV5 {}
+  (tk .percent ['%']) (tk .int ['5']) [] C07_zShape2 (Or.inl rfl) C07_xNameNB (by decide) (by decide) rfl
+  (by intro h; cases h) (by decide) (by decide) (by decide) (by decide) rfl (by decide)
+example : (parseRecipe (α := Rat) C07_coreEnv ">> source: grandma\n\nUse @x{%g} now\n".toList).diags.toList =
+    [⟨.error, .parse, "empty-value", [⟨27, 27⟩]⟩] := by decide +kernel
+example : ((parseRecipe (α := Rat) C07_coreEnv ">> source: grandma\n\nUse @x{5%} now\n".toList).diags.toList.filter
+      (fun d => d.stage == .parse),
+    (parseRecipe (α := Rat) C07_coreEnv ">> source: grandma\n\nUse @x{5%} now\n".toList).output.isSome) =
+    ([⟨.warning, .parse, "empty-unit", [⟨28, 29⟩]⟩], true) := by decide +kernel
+
+/-! ### Intermediate-reference syntax errors as placement pieces (wave 9)
+
+  `PlShapeI` (Lemmas/DiagPlaceInter.lean): the shape of a braces component whose modifier tokens are
+  `pre & ( inner ) post`, with its own cut lemma `c07i_cut` (from `rti_modifiersP`). -/
+
+/-- the ingredient event of `@&( inner )name{}` planted after `A` in `T`: `&` flag, no intermediate data -/
+def C07_interIngr (T A : List Tok) (tm tand top : Tok) (inner : List Tok) (tcp : Tok) (nameT : List Tok) (tob : Tok)
+    (Q : List Tok) (tcb : Tok) : Ev α :=
+  .ingredient ⟨⟨⟨Modifiers.empty.insert Modifiers.REF, tokensSpan (tand :: top :: (inner ++ [tcp]))⟩, none,
+      buildText (offAt T (A.length + 1 + (c07i_mods [] tand top inner tcp []).length)) nameT, none, none, none⟩,
+    ⟨offAt T A.length,
+     offAt T (A.length + (c07p_comp tm (c07i_mods [] tand top inner tcp []) nameT tob Q tcb).length)⟩⟩
+
+/-- **The intermediate-reference syntax errors, wherever the ingredient stands** (`@&()x{}`, `@&(~=1)x{}`,
+    `@&(99999)x{}`, `@&(-1)x{}`, `@&(x)y{}`; COMPONENT_MODIFIERS and INTERMEDIATE_PREPARATIONS on).  An ingredient
+    with modifier tokens exactly `&` `(` inner `)` (`inner` without `)`), a non-blank name without alias separator,
+    blank braces, not followed by `(`, anywhere in a step block (`PlPieceAt`: from every state at its position, one
+    iteration of the step loop).  `f` = the non-blank tokens of `inner`.  The iteration pushes EXACTLY one error
+    (error, parse) and then the ingredient with the `&` flag and no intermediate data on the byte range of the
+    construct:
+    * generic: whatever event `ev` the data reader pushes on rejecting the group;
+    * `f = []` ⇒ `inter-ref-empty` (the group); `f = [~, =, int]` ⇒ `inter-ref-wrong-order` (the `~` and the `=`);
+      `f = [int]` above 32767 ⇒ `int-parse` (the number); `f = [±, int]` ⇒ `inter-ref-sign` (the sign);
+      `f = [x]`, `x` not an integer ⇒ `inter-ref-invalid` (the span of `inner`).
+    PARTIAL: ingredient with the group ALONE and no quantity only (the exact tail `ingredientTail_interref_err`);
+    missing: plain modifiers around the group (the cut `c07i_cut` covers them, the tail does not), a quantity, and
+    `inter-ref-not-allowed:cookware` (the cookware tail lemma `cookwareTail_inter` is membership only). -/
+theorem C07_planted_inter_ref_family_partial (T A rest : List Tok) (cs : CharSpec) (e : Ext) (hw : WF T)
+    (tm tand top : Tok) (inner : List Tok) (tcp : Tok) (nameT : List Tok) (tob : Tok) (Q : List Tok) (tcb : Tok)
+    (hT : T = A ++ (c07p_comp tm (c07i_mods [] tand top inner tcp []) nameT tob Q tcb ++ rest))
+    (sh : PlShapeI e .at tm [] tand top inner tcp [] nameT tob Q tcb rest)
+    (hQ : ∀ t ∈ Q, isPadK t = true)
+    (ha : e.has Gen.EXT_COMPONENT_ALIAS = false ∨ ∀ t ∈ nameT, t.kind ≠ .or)
+    (hname : (buildText (offAt T (A.length + 1 + (c07i_mods [] tand top inner tcp []).length)) nameT).isTextEmpty cs
+      = false) :
+    (∀ ev : Ev α, (∀ s0 : BP α, parseInterRef (α := α) (top :: (inner ++ tcp :: [])) s0 =
+        ((none, []), { s0 with evs := s0.evs.push ev })) →
+      PlPieceAt (α := α) T cs e A ⟨c07p_comp tm (c07i_mods [] tand top inner tcp []) nameT tob Q tcb, fun evs =>
+        evs = [ev, C07_interIngr T A tm tand top inner tcp nameT tob Q tcb]⟩) ∧
+    (inner.filter nonBlankTok = [] →
+      PlPieceAt (α := α) T cs e A ⟨c07p_comp tm (c07i_mods [] tand top inner tcp []) nameT tob Q tcb, fun evs =>
+        evs = [.error ⟨.error, .parse, "inter-ref-empty", [tokensSpan (top :: (inner ++ [tcp]))]⟩,
+          C07_interIngr T A tm tand top inner tcp nameT tob Q tcb]⟩) ∧
+    (∀ a b i, inner.filter nonBlankTok = [a, b, i] → a.kind = .tilde → b.kind = .eq → i.kind = .int →
+      PlPieceAt (α := α) T cs e A ⟨c07p_comp tm (c07i_mods [] tand top inner tcp []) nameT tob Q tcb, fun evs =>
+        evs = [.error ⟨.error, .parse, "inter-ref-wrong-order", [⟨a.start, a.stop⟩, ⟨b.start, b.stop⟩]⟩,
+          C07_interIngr T A tm tand top inner tcp nameT tob Q tcb]⟩) ∧
+    (∀ i, inner.filter nonBlankTok = [i] → i.kind = .int → 32767 < digitsToNat i.text →
+      PlPieceAt (α := α) T cs e A ⟨c07p_comp tm (c07i_mods [] tand top inner tcp []) nameT tob Q tcb, fun evs =>
+        evs = [.error ⟨.error, .parse, "int-parse", [⟨i.start, i.stop⟩]⟩,
+          C07_interIngr T A tm tand top inner tcp nameT tob Q tcb]⟩) ∧
+    (∀ sg i, inner.filter nonBlankTok = [sg, i] → (sg.kind = .minus ∨ sg.kind = .plus) → i.kind = .int →
+      PlPieceAt (α := α) T cs e A ⟨c07p_comp tm (c07i_mods [] tand top inner tcp []) nameT tob Q tcb, fun evs =>
+        evs = [.error ⟨.error, .parse, "inter-ref-sign", [⟨sg.start, sg.stop⟩]⟩,
+          C07_interIngr T A tm tand top inner tcp nameT tob Q tcb]⟩) ∧
+    (∀ x, inner.filter nonBlankTok = [x] → x.kind ≠ .int →
+      PlPieceAt (α := α) T cs e A ⟨c07p_comp tm (c07i_mods [] tand top inner tcp []) nameT tob Q tcb, fun evs =>
+        evs = [.error ⟨.error, .parse, "inter-ref-invalid", [tokensSpan inner]⟩,
+          C07_interIngr T A tm tand top inner tcp nameT tob Q tcb]⟩) := by
+  have g := c07i_ingredient_inter_piece (α := α) T A rest cs e tm tand top inner tcp nameT tob Q tcb hT hw sh hQ ha
+    hname
+  exact ⟨g,
+    fun h => g _ (fun s0 => parseInterRef_empty top tcp inner [] s0 sh.hop sh.hcp sh.hin h),
+    fun a b i h h1 h2 h3 => g _ (fun s0 => parseInterRef_wrong_order top tcp inner [] s0 sh.hop sh.hcp sh.hin a b i h
+      h1 h2 h3),
+    fun i h h1 h2 => g _ (fun s0 => parseInterRef_too_large top tcp inner [] s0 sh.hop sh.hcp sh.hin i h h1 h2),
+    fun sg i h h1 h2 => g _ (fun s0 => parseInterRef_signed top tcp inner [] s0 sh.hop sh.hcp sh.hin sg i h h1 h2),
+    fun x h h1 => g _ (fun s0 => parseInterRef_invalid top tcp inner [] s0 sh.hop sh.hcp sh.hin x h h1)⟩
+
+/-! non-vacuity: `Use @&(x)y{} now` under COMPONENT_MODIFIERS + INTERMEDIATE_PREPARATIONS: the hypotheses hold on the
+    step's tokens (last clause: `inner = [x]`, a word); the real run reports exactly `inter-ref-invalid` at 7..8. -/
+def C07_iToks : List Tok :=
+  [⟨.word, "Use".toList, 0⟩, ⟨.ws, [' '], 3⟩, ⟨.at, ['@'], 4⟩, ⟨.and, ['&'], 5⟩, ⟨.openParen, ['('], 6⟩,
+   ⟨.word, ['x'], 7⟩, ⟨.closeParen, [')'], 8⟩, ⟨.word, ['y'], 9⟩, ⟨.openBrace, ['{'], 10⟩, ⟨.closeBrace, ['}'], 11⟩,
+   ⟨.ws, [' '], 12⟩, ⟨.word, "now".toList, 13⟩]
+theorem C07_iWF : WF C07_iToks :=
+  WF.of_chain (off := 0) (by simp [C07_iToks, Chain, Tok.stop, utf8Len]; decide)
+    (by intro t ht; simp [C07_iToks] at ht
+        rcases ht with rfl | rfl | rfl | rfl | rfl | rfl | rfl | rfl | rfl | rfl | rfl | rfl <;> simp)
+    (by simp [C07_iToks])
+theorem C07_iShape : PlShapeI ⟨Gen.EXT_COMPONENT_MODIFIERS ||| Gen.EXT_INTERMEDIATE_PREPARATIONS⟩ .at ⟨.at, ['@'], 4⟩ []
+    ⟨.and, ['&'], 5⟩ ⟨.openParen, ['('], 6⟩ [⟨.word, ['x'], 7⟩] ⟨.closeParen, [')'], 8⟩ [] [⟨.word, ['y'], 9⟩]
+    ⟨.openBrace, ['{'], 10⟩ [] ⟨.closeBrace, ['}'], 11⟩ [⟨.ws, [' '], 12⟩, ⟨.word, "now".toList, 13⟩] :=
+  ⟨rfl, by decide, by decide, (by intro t h; cases h), rfl, rfl, (by intro t h; simp at h; subst h; decide), rfl,
+   (by intro t h; cases h), (by intro t h; simp at h; subst h; decide), (by intro t h; simp at h; subst h; decide),
+   rfl, (by intro t h; cases h), rfl, (by intro t h; simp at h; subst h; decide)⟩
+example := (C07_planted_inter_ref_family_partial (α := Rat) C07_iToks [⟨.word, "Use".toList, 0⟩, ⟨.ws, [' '], 3⟩]
+    [⟨.ws, [' '], 12⟩, ⟨.word, "now".toList, 13⟩] toyCharSpec
+    ⟨Gen.EXT_COMPONENT_MODIFIERS ||| Gen.EXT_INTERMEDIATE_PREPARATIONS⟩ C07_iWF ⟨.at, ['@'], 4⟩ ⟨.and, ['&'], 5⟩
+    ⟨.openParen, ['('], 6⟩ [⟨.word, ['x'], 7⟩] ⟨.closeParen, [')'], 8⟩ [⟨.word, ['y'], 9⟩] ⟨.openBrace, ['{'], 10⟩ []
+    ⟨.closeBrace, ['}'], 11⟩ rfl C07_iShape (by intro t h; cases h) (Or.inl (by decide)) (by decide)).2.2.2.2.2
+    ⟨.word, ['x'], 7⟩ (by decide) (by decide)
+example : (parseRecipe (α := Rat)
+      { C07_coreEnv with ext := ⟨Gen.EXT_COMPONENT_MODIFIERS ||| Gen.EXT_INTERMEDIATE_PREPARATIONS⟩ }
+      "Use @&(x)y{} now\n".toList).diags.toList =
+    [⟨.error, .parse, "inter-ref-invalid", [⟨7, 8⟩]⟩] := by decide +kernel
 
 end Cook
